@@ -34,7 +34,9 @@ Write(m, data) ==
           IN [v |-> r[1], buf |-> SubSeq(rest, r[2], Len(rest)), len |-> m.len + Len(data)]
 
 LenField(n) ==    \* 64-bit big-endian bit count in production; B \div 8 ... see MC_HashObj
-  IF B = 64 THEN <<0, 0, 0, 0>> \o WToBytes(<< (n \div 8192) % 65536, (n % 8192) * 8 >>)
+  IF B = 64 THEN \* big-endian 64-bit value of 8n, byte by byte (n < 2^31; no intermediate exceeds 2^31)
+                 << 0, 0, 0, (n \div 536870912) % 256, (n \div 2097152) % 256, (n \div 8192) % 256,
+                    (n \div 32) % 256, (n % 32) * 8 >>
   ELSE <<n % 256>>
 LenBytes == IF B = 64 THEN 8 ELSE 1
 MaxTail == B - LenBytes
